@@ -1,11 +1,14 @@
 /-
   DDProofs.ImageWrap — the module-level functions `image` and `preimage` (argument mapping,
   precondition checks, the call of `_image` with an empty memo), reordering not enabled.
-  `image` / `preimage` are NOT decorated with `_try_to_reorder`; they call the decorated
-  `BDD.ite` and `find_or_add` from inside `_image`.
+  `image` / `preimage` turn their arguments into variable names (`_image_args_by_name`) and run
+  the decorated bodies `_image_of` / `_preimage_of`, which call the decorated `BDD.ite` and
+  `find_or_add` from inside `_image`.  With the order maps inverse bijections (`VarsBij`) the
+  detour through the names returns the same levels, so the theorems read as before.
 -/
 import DDProofs.Image
 import DDProofs.SatSupport
+import DDProofs.SatPick
 import DDProofs.LetCopy
 open Std
 
@@ -167,12 +170,12 @@ theorem imageBadTargets_ne_nil (vals : List Int) (q s1 s2 : List Nat)
   | nil => rw [h] at this; cases this
   | cons _ _ => rfl
 
-/-- module-level `image(trans, source, rename, qvars, bdd, forall)`, reordering not enabled, ANY
+/-- the decorated body `_image_of(bdd, trans, source, rename, qvars, forall)`, reordering not enabled, ANY
 variable order: `q` are the levels `_map_to_level` computes for `qvars`, the renaming is the
 dictionary of level pairs that `resolveRename` (names looked up in `bdd.vars`) produces.  When
 the code's own checks pass (no key is a value; every target quantified or outside the supports)
 and the pairs are declared levels, the result is `rename(Q qvars. trans ∧ source)`. -/
-theorem image_spec (m : Mgr) (hI : Inv m) (hoff : m.lastLen = none) (hV : VarsBij m.tbl)
+theorem imageBody_spec (m : Mgr) (hI : Inv m) (hoff : m.lastLen = none) (hV : VarsBij m.tbl)
     (trans source : Int) (hu : m.tbl.Mem trans) (hv : m.tbl.Mem source)
     (rn : List (Key × Key)) (qvars : List Key) (fa : Bool) (q : List Nat)
     (hq : mapToLevelE m.tbl qvars = .ok q)
@@ -182,7 +185,7 @@ theorem image_spec (m : Mgr) (hI : Inv m) (hoff : m.lastLen = none) (hV : VarsBi
       0 ≤ p.1 ∧ p.1 < (m.nvars : Int) ∧ 0 ≤ p.2 ∧ p.2 < (m.nvars : Int))
     (htg : ∀ p, p ∈ intPairs (resolveRename m.tbl rn) → ∀ l : Nat, p.2 = (l : Int) →
       l ∈ q ∨ (¬ dependsOn m.tbl trans l ∧ ¬ dependsOn m.tbl source l)) :
-    ∃ r m', image trans source rn qvars fa m = (.ok r, m') ∧ Inv m' ∧ Ext m.tbl m'.tbl ∧
+    ∃ r m', imageBody trans source rn qvars fa m = (.ok r, m') ∧ Inv m' ∧ Ext m.tbl m'.tbl ∧
       m'.tbl.Mem r ∧ Frame m m' ∧
       ∀ a, den m'.tbl r a = true ↔
         qsem fa q (fun b => den m.tbl trans b && den m.tbl source b)
@@ -204,7 +207,7 @@ theorem image_spec (m : Mgr) (hI : Inv m) (hoff : m.lastLen = none) (hV : VarsBi
       renOf_lt pairs m.nvars (fun p hp => (hlv p hp).2.2.2) z hz⟩)
     (IMemo.empty _ _ _ _ _) (by omega)
   refine ⟨r, m', ?_, h1, h2, h5, h3, h6⟩
-  unfold image
+  unfold imageBody
   simp only [hq, hov, Bool.false_eq_true, if_false]
   rw [hrn]
   simp only [adjacentWarn_ok m hV pairs hlv, hs1, hs2, renameValues_map_lvl, hbad,
@@ -213,16 +216,16 @@ theorem image_spec (m : Mgr) (hI : Inv m) (hoff : m.lastLen = none) (hV : VarsBi
 
 /-- `image` refuses (AssertionError, manager untouched) when a key of the renaming is also a
 value -/
-theorem image_refuses_overlap (m : Mgr) (trans source : Int) (rn : List (Key × Key))
+theorem imageBody_refuses_overlap (m : Mgr) (trans source : Int) (rn : List (Key × Key))
     (qvars : List Key) (fa : Bool) (q : List Nat) (hq : mapToLevelE m.tbl qvars = .ok q)
     (hov : renameOverlap (resolveRename m.tbl rn) = true) :
-    image trans source rn qvars fa m = (.error .assertion, m) := by
-  unfold image
+    imageBody trans source rn qvars fa m = (.error .assertion, m) := by
+  unfold imageBody
   simp only [hq, hov, if_true]
 
 /-- `image` refuses (AssertionError, manager untouched) when a rename target is in the support
 of an operand and is not quantified -/
-theorem image_refuses_target (m : Mgr) (hI : Inv m) (hV : VarsBij m.tbl)
+theorem imageBody_refuses_target (m : Mgr) (hI : Inv m) (hV : VarsBij m.tbl)
     (trans source : Int) (hu : m.tbl.Mem trans) (hv : m.tbl.Mem source)
     (rn : List (Key × Key)) (qvars : List Key) (fa : Bool) (q : List Nat)
     (hq : mapToLevelE m.tbl qvars = .ok q)
@@ -233,7 +236,7 @@ theorem image_refuses_target (m : Mgr) (hI : Inv m) (hV : VarsBij m.tbl)
     (p : Int × Int) (hp : p ∈ intPairs (resolveRename m.tbl rn)) (l : Nat)
     (hl : p.2 = (l : Int)) (hlq : l ∉ q)
     (hdep : dependsOn m.tbl trans l ∨ dependsOn m.tbl source l) :
-    image trans source rn qvars fa m = (.error .assertion, m) := by
+    imageBody trans source rn qvars fa m = (.error .assertion, m) := by
   have hrn := eq_map_of_nonLevel _ hnl
   generalize hpairs : intPairs (resolveRename m.tbl rn) = pairs at hlv hp hrn
   obtain ⟨s1, hs1, _, hd1⟩ := supportLevels_spec' hI.wf trans hu
@@ -241,7 +244,7 @@ theorem image_refuses_target (m : Mgr) (hI : Inv m) (hV : VarsBij m.tbl)
   have hbad := imageBadTargets_ne_nil (pairs.map (·.2)) q s1 s2 l
     (List.mem_map.mpr ⟨p, hp, hl⟩) hlq
     (hdep.elim (fun h => Or.inl ((hd1 l).mpr h)) (fun h => Or.inr ((hd2 l).mpr h)))
-  unfold image
+  unfold imageBody
   simp only [hq, hov, Bool.false_eq_true, if_false]
   rw [hrn]
   simp only [adjacentWarn_ok m hV pairs hlv, hs1, hs2, renameValues_map_lvl, hbad,
@@ -249,11 +252,11 @@ theorem image_refuses_target (m : Mgr) (hI : Inv m) (hV : VarsBij m.tbl)
 
 /-! ### `preimage` -/
 
-/-- module-level `preimage(trans, target, rename, qvars, bdd, forall)`, reordering not enabled:
+/-- the decorated body `_preimage_of(bdd, trans, target, rename, qvars, forall)`, reordering not enabled:
 when the pairs of the renaming are declared levels, adjacent (`|k - rename k| = 1`), no two keys
 share a target, and THE TARGET IS INDEPENDENT OF EVERY VALUE OF THE RENAMING, the result is
 `Q qvars. trans ∧ rename(target)`. -/
-theorem preimage_spec_partial (m : Mgr) (hI : Inv m) (hoff : m.lastLen = none)
+theorem preimageBody_spec_partial (m : Mgr) (hI : Inv m) (hoff : m.lastLen = none)
     (hV : VarsBij m.tbl) (trans target : Int) (hu : m.tbl.Mem trans) (hv : m.tbl.Mem target)
     (rn : List (Key × Key)) (qvars : List Key) (fa : Bool) (q : List Nat)
     (hq : mapToLevelE m.tbl qvars = .ok q)
@@ -267,7 +270,7 @@ theorem preimage_spec_partial (m : Mgr) (hI : Inv m) (hoff : m.lastLen = none)
       p' ∈ intPairs (resolveRename m.tbl rn) → p.2 = p'.2 → p.1 = p'.1)
     (hind : ∀ p, p ∈ intPairs (resolveRename m.tbl rn) → ∀ l : Nat, p.2 = (l : Int) →
       ¬ dependsOn m.tbl target l) :
-    ∃ r m', preimage trans target rn qvars fa m = (.ok r, m') ∧ Inv m' ∧ Ext m.tbl m'.tbl ∧
+    ∃ r m', preimageBody trans target rn qvars fa m = (.ok r, m') ∧ Inv m' ∧ Ext m.tbl m'.tbl ∧
       m'.tbl.Mem r ∧ Frame m m' ∧
       ∀ a, den m'.tbl r a = true ↔
         qsem fa q (fun b => den m.tbl trans b && den m.tbl target
@@ -292,7 +295,7 @@ theorem preimage_spec_partial (m : Mgr) (hI : Inv m) (hoff : m.lastLen = none)
       (fun p hp j hj heq => hind p hp j heq (hj.dependsOn hI.wf)))
     (IMemo.empty _ _ _ _ _) (by omega)
   refine ⟨r, m', ?_, h1, h2, h5, h3, h6⟩
-  unfold preimage
+  unfold preimageBody
   simp only [hq, assertValidRename_ok m hV _ hne hov, hpairs, hnb, he]
 
 /-! ### the renaming dictionary: keys and values given as names or as levels -/
@@ -449,6 +452,443 @@ theorem renameNonLevel_lvls (l : List (Int × Int)) :
   rintro ⟨x, hx, hx2⟩
   obtain ⟨p, _, rfl⟩ := List.mem_map.mp hx
   simp at hx2
+
+/-! ### `_image_args_by_name`: the arguments as variable names, and back -/
+
+/-- resolving the name of a key gives what resolving the key gives -/
+theorem resKey_keyByName (t : Tbl) (hV : VarsBij t) (k : Key) :
+    resKey t (keyByName t k) = resKey t k := by
+  cases k with
+  | name s =>
+    cases hv : t.vars[s]? with
+    | none => simp [keyByName, resKey, hv]
+    | some l =>
+      have hl := hV.v2l s l hv
+      simp [keyByName, resKey, hv, hl]
+  | lvl i =>
+    by_cases h0 : 0 ≤ i
+    · cases hl : t.l2v[i.toNat]? with
+      | none => simp [keyByName, resKey, h0, hl]
+      | some nm =>
+        have hv := hV.l2v _ _ hl
+        simp only [keyByName, resKey, h0, if_true, hl, hv]
+        congr 1
+        omega
+    · simp [keyByName, resKey, h0]
+
+theorem keyByName_resKey (t : Tbl) (k : Key) : keyByName t (resKey t k) = keyByName t k := by
+  cases k with
+  | lvl i => rfl
+  | name s =>
+    cases hv : t.vars[s]? with
+    | none => simp [resKey, hv]
+    | some l =>
+      have h0 : (0 : Int) ≤ (l : Int) := by omega
+      simp only [resKey, hv, keyByName, h0, if_true, Int.toNat_natCast]
+
+/-- resolving is injective on keys that are already given by name -/
+theorem resKey_inj_byName (t : Tbl) (hV : VarsBij t) (k k' : Key)
+    (h : resKey t (keyByName t k) = resKey t (keyByName t k')) : keyByName t k = keyByName t k' := by
+  have h2 := congrArg (keyByName t) h
+  rw [keyByName_resKey, keyByName_resKey] at h2
+  have idem : ∀ x, keyByName t (keyByName t x) = keyByName t x := by
+    intro x
+    rw [← keyByName_resKey t (keyByName t x), resKey_keyByName t hV, keyByName_resKey]
+  rw [idem, idem] at h2
+  exact h2
+
+theorem dedup_map_inj {α β} [BEq α] [LawfulBEq α] [BEq β] [LawfulBEq β] (f : α → β) :
+    ∀ l : List α, (∀ a, a ∈ l → ∀ b, b ∈ l → f a = f b → a = b) →
+      dedup (l.map f) = (dedup l).map f := by
+  intro l
+  induction l with
+  | nil => intro _; rfl
+  | cons a l ih =>
+    intro h
+    have ih' := ih (fun x hx y hy => h x (List.mem_cons_of_mem _ hx) y (List.mem_cons_of_mem _ hy))
+    have hc : ((dedup l).map f).contains (f a) = (dedup l).contains a := by
+      rw [Bool.eq_iff_iff]
+      simp only [List.contains_iff_mem, List.mem_map]
+      constructor
+      · rintro ⟨x, hx, hfx⟩
+        have hxl : x ∈ l := mem_dedup.mp hx
+        have := h x (List.mem_cons_of_mem _ hxl) a List.mem_cons_self hfx
+        subst this
+        exact hx
+      · intro ha
+        exact ⟨a, ha, rfl⟩
+    simp only [List.map_cons, dedup, ih', hc]
+    split <;> simp
+
+theorem lookup_map_inj {α β γ δ} [BEq α] [LawfulBEq α] [BEq β] [LawfulBEq β] (f : α → β) (g : γ → δ) :
+    ∀ (l : List (α × γ)) (k : α), (∀ p, p ∈ l → f p.1 = f k → p.1 = k) →
+      (l.map fun p => (f p.1, g p.2)).lookup (f k) = (l.lookup k).map g := by
+  intro l
+  induction l with
+  | nil => intro k _; rfl
+  | cons p l ih =>
+    intro k h
+    obtain ⟨k', v'⟩ := p
+    rw [List.map_cons, List.lookup_cons, List.lookup_cons]
+    by_cases he : k = k'
+    · subst he
+      simp
+    · have h1 : (k == k') = false := by simpa using he
+      have h2 : (f k == f k') = false := by
+        simp only [beq_eq_false_iff_ne, ne_eq]
+        intro hh
+        exact he (h (k', v') List.mem_cons_self hh.symm).symm
+      simp only [h1, h2]
+      exact ih k (fun p hp => h p (List.mem_cons_of_mem _ hp))
+
+/-- a dictionary read through a map that is injective on its keys -/
+theorem renameDictOf_map_inj (f : Key → Key) (l : List (Key × Key))
+    (hinj : ∀ a, a ∈ l.map (·.1) → ∀ b, b ∈ l.map (·.1) → f a = f b → a = b) :
+    renameDictOf (l.map fun p => (f p.1, f p.2)) = (renameDictOf l).map fun p => (f p.1, f p.2) := by
+  unfold renameDictOf
+  have hrev : (l.map fun p => (f p.1, f p.2)).reverse = l.reverse.map fun p => (f p.1, f p.2) := by
+    rw [List.map_reverse]
+  have hkeys : (l.reverse.map fun p => (f p.1, f p.2)).map (·.1) = (l.reverse.map (·.1)).map f := by
+    rw [List.map_map, List.map_map]; rfl
+  have hinj' : ∀ a, a ∈ l.reverse.map (·.1) → ∀ b, b ∈ l.reverse.map (·.1) → f a = f b → a = b := by
+    intro a ha b hb
+    rw [List.map_reverse, List.mem_reverse] at ha hb
+    exact hinj a ha b hb
+  rw [hrev, hkeys, dedup_map_inj f _ hinj', ← List.map_reverse, List.map_map, List.map_map]
+  apply List.map_congr_left
+  intro k hk
+  have hkl : k ∈ l.reverse.map (·.1) := mem_dedup.mp (List.mem_reverse.mp hk)
+  simp only [Function.comp]
+  rw [lookup_map_inj f f l.reverse k (fun p hp hfp => hinj' _ (List.mem_map.mpr ⟨p, hp, rfl⟩) _ hkl hfp)]
+  cases l.reverse.lookup k <;> rfl
+
+theorem renameDictOf_keys (l : List (Key × Key)) :
+    (renameDictOf l).map (·.1) = (dedup (l.reverse.map (·.1))).reverse := by
+  unfold renameDictOf
+  rw [List.map_map]
+  exact List.map_id' _
+
+theorem renameDictOf_idem (l : List (Key × Key)) : renameDictOf (renameDictOf l) = renameDictOf l := by
+  apply renameDictOf_nodup
+  rw [renameDictOf_keys]
+  exact List.pairwise_reverse.mpr ((nodup_dedup _).imp fun hab => hab.symm)
+
+theorem renameByName_eq (t : Tbl) (rn : List (Key × Key)) :
+    renameByName t rn = renameDictOf (rn.map fun p => (keyByName t p.1, keyByName t p.2)) := by
+  unfold renameByName renameDictOf
+  rfl
+
+/-- `_image_of` resolves the renaming by name to the levels the caller's renaming resolves to -/
+theorem resolveRename_renameByName (t : Tbl) (hV : VarsBij t) (rn : List (Key × Key)) :
+    resolveRename t (renameByName t rn) = resolveRename t rn := by
+  rw [resolveRename_eq, resolveRename_eq, renameByName_eq]
+  generalize hl' : (rn.map fun p => (keyByName t p.1, keyByName t p.2)) = l'
+  have hinj : ∀ a, a ∈ (renameDictOf l').map (·.1) → ∀ b, b ∈ (renameDictOf l').map (·.1) →
+      resKey t a = resKey t b → a = b := by
+    have hk : ∀ a, a ∈ (renameDictOf l').map (·.1) → ∃ k, a = keyByName t k := by
+      intro a ha
+      rw [renameDictOf_keys, List.mem_reverse, mem_dedup, List.map_reverse, List.mem_reverse,
+        ← hl', List.map_map] at ha
+      obtain ⟨p, _, rfl⟩ := List.mem_map.mp ha
+      exact ⟨p.1, rfl⟩
+    intro a ha b hb hab
+    obtain ⟨k, rfl⟩ := hk a ha
+    obtain ⟨k', rfl⟩ := hk b hb
+    exact resKey_inj_byName t hV k k' hab
+  have hinj2 : ∀ a, a ∈ l'.map (·.1) → ∀ b, b ∈ l'.map (·.1) → resKey t a = resKey t b → a = b := by
+    intro a ha b hb hab
+    rw [← hl', List.map_map] at ha hb
+    obtain ⟨p, _, rfl⟩ := List.mem_map.mp ha
+    obtain ⟨p', _, rfl⟩ := List.mem_map.mp hb
+    exact resKey_inj_byName t hV p.1 p'.1 hab
+  rw [renameDictOf_map_inj (resKey t) (renameDictOf l') hinj, renameDictOf_idem,
+    ← renameDictOf_map_inj (resKey t) l' hinj2, ← hl', List.map_map]
+  congr 1
+  apply List.map_congr_left
+  intro p _
+  simp only [Function.comp, resKey_keyByName t hV]
+
+theorem mapME_mem {α β} (f : α → Except Err β) : ∀ (l : List α) (bs : List β),
+    mapME f l = .ok bs → ∀ b, b ∈ bs → ∃ a, a ∈ l ∧ f a = .ok b := by
+  intro l
+  induction l with
+  | nil =>
+    intro bs h b hb
+    simp only [mapME] at h
+    cases h
+    cases hb
+  | cons a l ih =>
+    intro bs h b hb
+    unfold mapME at h
+    split at h
+    · cases h
+    · next b0 hb0 =>
+      split at h
+      · cases h
+      · next bs0 hbs0 =>
+        cases h
+        rcases List.mem_cons.mp hb with rfl | hb'
+        · exact ⟨a, List.mem_cons_self, hb0⟩
+        · obtain ⟨a', ha', hf⟩ := ih bs0 hbs0 b hb'
+          exact ⟨a', List.mem_cons_of_mem _ ha', hf⟩
+
+/-- every level that `_map_to_level` returns has a name -/
+theorem mapToLevelE_named (t : Tbl) (hV : VarsBij t) (keys : List Key) (q : List Nat)
+    (h : mapToLevelE t keys = .ok q) : ∀ j, j ∈ q → ∃ nm, t.l2v[j]? = some nm := by
+  have hlv : ∀ ks : List Key, ks.all (keyIsLevel t) = true → ∀ j,
+      j ∈ (ks.map fun k => match k with
+          | .lvl i => i.toNat
+          | .name _ => 0) → ∃ nm, t.l2v[j]? = some nm := by
+    intro ks hall j hj
+    obtain ⟨k, hk, rfl⟩ := List.mem_map.mp hj
+    have hkl := (List.all_eq_true.mp hall) k hk
+    cases k with
+    | name s => simp [keyIsLevel] at hkl
+    | lvl i =>
+      simp only [keyIsLevel, Bool.and_eq_true, decide_eq_true_eq] at hkl
+      have := hkl.2
+      rw [TreeMap.contains_eq_isSome_getElem?] at this
+      exact Option.isSome_iff_exists.mp this
+  have hvr : ∀ ks : List Key, mapME (keyVarLevel t) ks = .ok q → ∀ j, j ∈ q →
+      ∃ nm, t.l2v[j]? = some nm := by
+    intro ks hm j hj
+    obtain ⟨k, _, hk⟩ := mapME_mem _ _ _ hm j hj
+    cases k with
+    | lvl i => simp [keyVarLevel] at hk
+    | name s =>
+      simp only [keyVarLevel] at hk
+      split at hk
+      · next l hl =>
+        cases hk
+        exact ⟨s, hV.v2l _ _ hl⟩
+      · cases hk
+  cases keys with
+  | nil =>
+    simp only [mapToLevelE] at h
+    cases h
+    intro j hj
+    cases hj
+  | cons k0 rest =>
+    cases k0 with
+    | lvl i =>
+      simp only [mapToLevelE, Bool.not_false, if_true] at h
+      by_cases hall : (Key.lvl i :: rest).all (keyIsLevel t) = true
+      · rw [if_pos hall] at h
+        cases h
+        exact hlv _ hall
+      · rw [if_neg hall] at h
+        cases h
+    | name s =>
+      by_cases hc : t.vars.contains s = true
+      · simp only [mapToLevelE, hc, Bool.not_true, Bool.false_eq_true, if_false] at h
+        exact hvr _ h
+      · have hc' : t.vars.contains s = false := Bool.eq_false_iff.mpr hc
+        simp only [mapToLevelE, hc', Bool.not_false, if_true] at h
+        by_cases hall : (Key.name s :: rest).all (keyIsLevel t) = true
+        · rw [if_pos hall] at h
+          cases h
+          exact hlv _ hall
+        · rw [if_neg hall] at h
+          cases h
+
+/-- `_image_args_by_name` on `qvars`: the names of the levels; `_image_of` maps them back to
+the same levels -/
+theorem qvarsByName_ok (t : Tbl) (hV : VarsBij t) (qvars : List Key) (q : List Nat)
+    (h : mapToLevelE t qvars = .ok q) :
+    ∃ qn, qvarsByName t qvars = .ok qn ∧ mapToLevelE t qn = .ok q := by
+  have hn := mapToLevelE_named t hV qvars q h
+  refine ⟨(q.map (t.nameOf)).map Key.name, ?_, ?_⟩
+  · unfold qvarsByName
+    rw [h]
+    simp only
+    rw [List.map_map]
+    apply mapME_ok
+    intro j hj
+    obtain ⟨nm, hnm⟩ := hn j hj
+    simp [hnm, Tbl.nameOf]
+  · rw [mapToLevelE_names t (q.map t.nameOf)]
+    · rw [List.map_map]
+      congr 1
+      conv => rhs; rw [← List.map_id q]
+      apply List.map_congr_left
+      intro j hj
+      obtain ⟨nm, hnm⟩ := hn j hj
+      simp only [Function.comp, Tbl.nameOf, hnm, Option.getD_some, id]
+      exact lvlOf_eq (hV.l2v _ _ hnm)
+    · intro s hs
+      obtain ⟨j, hj, rfl⟩ := List.mem_map.mp hs
+      obtain ⟨nm, hnm⟩ := hn j hj
+      simp only [Tbl.nameOf, hnm, Option.getD_some]
+      exact (vars_contains_iff t nm).mpr ⟨j, hV.l2v _ _ hnm⟩
+
+theorem qvarsByName_error (t : Tbl) (qvars : List Key) (e : Err)
+    (h : mapToLevelE t qvars = .error e) : qvarsByName t qvars = .error e := by
+  unfold qvarsByName
+  rw [h]
+
+/-- the body only looks at what its two arguments resolve to -/
+theorem imageBody_congr (trans source : Int) (rn rn' : List (Key × Key)) (qv qv' : List Key)
+    (fa : Bool) (m : Mgr) (hq : mapToLevelE m.tbl qv' = mapToLevelE m.tbl qv)
+    (hr : resolveRename m.tbl rn' = resolveRename m.tbl rn) :
+    imageBody trans source rn' qv' fa m = imageBody trans source rn qv fa m := by
+  unfold imageBody
+  rw [hq, hr]
+
+theorem preimageBody_congr (trans target : Int) (rn rn' : List (Key × Key)) (qv qv' : List Key)
+    (fa : Bool) (m : Mgr) (hq : mapToLevelE m.tbl qv' = mapToLevelE m.tbl qv)
+    (hr : resolveRename m.tbl rn' = resolveRename m.tbl rn) :
+    preimageBody trans target rn' qv' fa m = preimageBody trans target rn qv fa m := by
+  unfold preimageBody
+  rw [hq, hr]
+
+/-- `image` is the decorated body run on the arguments by name (order maps inverse bijections,
+`qvars` accepted by `_map_to_level`), which resolve to the same levels as the caller's -/
+theorem image_eq_decorated (m : Mgr) (hV : VarsBij m.tbl) (trans source : Int)
+    (rn : List (Key × Key)) (qvars : List Key) (fa : Bool) (q : List Nat)
+    (hq : mapToLevelE m.tbl qvars = .ok q) :
+    ∃ qn, image trans source rn qvars fa m =
+        tryToReorder (imageBody trans source (renameByName m.tbl rn) qn fa) m ∧
+      mapToLevelE m.tbl qn = .ok q := by
+  obtain ⟨qn, h1, h2⟩ := qvarsByName_ok m.tbl hV qvars q hq
+  refine ⟨qn, ?_, h2⟩
+  unfold image
+  rw [h1]
+
+theorem preimage_eq_decorated (m : Mgr) (hV : VarsBij m.tbl) (trans target : Int)
+    (rn : List (Key × Key)) (qvars : List Key) (fa : Bool) (q : List Nat)
+    (hq : mapToLevelE m.tbl qvars = .ok q) :
+    ∃ qn, preimage trans target rn qvars fa m =
+        tryToReorder (preimageBody trans target (renameByName m.tbl rn) qn fa) m ∧
+      mapToLevelE m.tbl qn = .ok q := by
+  obtain ⟨qn, h1, h2⟩ := qvarsByName_ok m.tbl hV qvars q hq
+  refine ⟨qn, ?_, h2⟩
+  unfold preimage
+  rw [h1]
+
+/-- the body (run on the caller's own arguments, flag set) returns without a reordering request:
+so does `image`, with the same result, in the same state with the flag restored -/
+theorem image_of_body_ok (m : Mgr) (hV : VarsBij m.tbl) (trans source : Int)
+    (rn : List (Key × Key)) (qvars : List Key) (fa : Bool) (q : List Nat)
+    (hq : mapToLevelE m.tbl qvars = .ok q) (r : Int) (m1 : Mgr)
+    (h : imageBody trans source rn qvars fa { m with ctx := true } = (.ok r, m1)) :
+    image trans source rn qvars fa m = (.ok r, { m1 with ctx := m.ctx }) := by
+  obtain ⟨qn, he, hqn⟩ := image_eq_decorated m hV trans source rn qvars fa q hq
+  rw [he]
+  apply tryToReorder_ok
+  rw [imageBody_congr trans source rn _ qvars qn fa { m with ctx := true }
+    (by show mapToLevelE m.tbl qn = mapToLevelE m.tbl qvars; rw [hqn, hq])
+    (resolveRename_renameByName m.tbl hV rn)]
+  exact h
+
+theorem image_of_body_err (m : Mgr) (hV : VarsBij m.tbl) (trans source : Int)
+    (rn : List (Key × Key)) (qvars : List Key) (fa : Bool) (q : List Nat)
+    (hq : mapToLevelE m.tbl qvars = .ok q) (e : Err) (m1 : Mgr) (hne : e ≠ .needsReordering)
+    (h : imageBody trans source rn qvars fa { m with ctx := true } = (.error e, m1)) :
+    image trans source rn qvars fa m = (.error e, { m1 with ctx := m.ctx }) := by
+  obtain ⟨qn, he, hqn⟩ := image_eq_decorated m hV trans source rn qvars fa q hq
+  rw [he]
+  apply tryToReorder_err _ _ _ _ _ hne
+  rw [imageBody_congr trans source rn _ qvars qn fa { m with ctx := true }
+    (by show mapToLevelE m.tbl qn = mapToLevelE m.tbl qvars; rw [hqn, hq])
+    (resolveRename_renameByName m.tbl hV rn)]
+  exact h
+
+theorem preimage_of_body_ok (m : Mgr) (hV : VarsBij m.tbl) (trans target : Int)
+    (rn : List (Key × Key)) (qvars : List Key) (fa : Bool) (q : List Nat)
+    (hq : mapToLevelE m.tbl qvars = .ok q) (r : Int) (m1 : Mgr)
+    (h : preimageBody trans target rn qvars fa { m with ctx := true } = (.ok r, m1)) :
+    preimage trans target rn qvars fa m = (.ok r, { m1 with ctx := m.ctx }) := by
+  obtain ⟨qn, he, hqn⟩ := preimage_eq_decorated m hV trans target rn qvars fa q hq
+  rw [he]
+  apply tryToReorder_ok
+  rw [preimageBody_congr trans target rn _ qvars qn fa { m with ctx := true }
+    (by show mapToLevelE m.tbl qn = mapToLevelE m.tbl qvars; rw [hqn, hq])
+    (resolveRename_renameByName m.tbl hV rn)]
+  exact h
+
+/-! ### `image`, `preimage`: reordering not enabled -/
+
+/-- module-level `image(trans, source, rename, qvars, bdd, forall)`, reordering not enabled, ANY
+variable order: `q` are the levels `_map_to_level` computes for `qvars`, the renaming is the
+dictionary of level pairs that `resolveRename` (names looked up in `bdd.vars`) produces.  When
+the code's own checks pass (no key is a value; every target quantified or outside the supports)
+and the pairs are declared levels, the result is `rename(Q qvars. trans ∧ source)`. -/
+theorem image_spec (m : Mgr) (hI : Inv m) (hoff : m.lastLen = none) (hV : VarsBij m.tbl)
+    (trans source : Int) (hu : m.tbl.Mem trans) (hv : m.tbl.Mem source)
+    (rn : List (Key × Key)) (qvars : List Key) (fa : Bool) (q : List Nat)
+    (hq : mapToLevelE m.tbl qvars = .ok q)
+    (hov : renameOverlap (resolveRename m.tbl rn) = false)
+    (hnl : renameNonLevel (resolveRename m.tbl rn) = false)
+    (hlv : ∀ p, p ∈ intPairs (resolveRename m.tbl rn) →
+      0 ≤ p.1 ∧ p.1 < (m.nvars : Int) ∧ 0 ≤ p.2 ∧ p.2 < (m.nvars : Int))
+    (htg : ∀ p, p ∈ intPairs (resolveRename m.tbl rn) → ∀ l : Nat, p.2 = (l : Int) →
+      l ∈ q ∨ (¬ dependsOn m.tbl trans l ∧ ¬ dependsOn m.tbl source l)) :
+    ∃ r m', image trans source rn qvars fa m = (.ok r, m') ∧ Inv m' ∧ Ext m.tbl m'.tbl ∧
+      m'.tbl.Mem r ∧ Frame m m' ∧
+      ∀ a, den m'.tbl r a = true ↔
+        qsem fa q (fun b => den m.tbl trans b && den m.tbl source b)
+          (fun z => a (renOf (intPairs (resolveRename m.tbl rn)) z)) := by
+  obtain ⟨r, m1, he, h1, h2, h3, h4, h5⟩ := imageBody_spec { m with ctx := true } (hI.setCtx true)
+    hoff hV trans source hu hv rn qvars fa q hq hov hnl hlv htg
+  exact ⟨r, { m1 with ctx := m.ctx }, image_of_body_ok m hV trans source rn qvars fa q hq r m1 he,
+    h1.setCtx _, h2, h3, ⟨h4.vars, h4.l2v, h4.lastLen, rfl, h4.sched, h4.roots⟩, h5⟩
+
+/-- `image` refuses (AssertionError, manager untouched) when a key of the renaming is also a
+value -/
+theorem image_refuses_overlap (m : Mgr) (hV : VarsBij m.tbl) (trans source : Int)
+    (rn : List (Key × Key))
+    (qvars : List Key) (fa : Bool) (q : List Nat) (hq : mapToLevelE m.tbl qvars = .ok q)
+    (hov : renameOverlap (resolveRename m.tbl rn) = true) :
+    image trans source rn qvars fa m = (.error .assertion, m) :=
+  image_of_body_err m hV trans source rn qvars fa q hq .assertion { m with ctx := true } (by simp)
+    (imageBody_refuses_overlap { m with ctx := true } trans source rn qvars fa q hq hov)
+
+/-- `image` refuses (AssertionError, manager untouched) when a rename target is in the support
+of an operand and is not quantified -/
+theorem image_refuses_target (m : Mgr) (hI : Inv m) (hV : VarsBij m.tbl)
+    (trans source : Int) (hu : m.tbl.Mem trans) (hv : m.tbl.Mem source)
+    (rn : List (Key × Key)) (qvars : List Key) (fa : Bool) (q : List Nat)
+    (hq : mapToLevelE m.tbl qvars = .ok q)
+    (hov : renameOverlap (resolveRename m.tbl rn) = false)
+    (hnl : renameNonLevel (resolveRename m.tbl rn) = false)
+    (hlv : ∀ p, p ∈ intPairs (resolveRename m.tbl rn) →
+      0 ≤ p.1 ∧ p.1 < (m.nvars : Int) ∧ 0 ≤ p.2 ∧ p.2 < (m.nvars : Int))
+    (p : Int × Int) (hp : p ∈ intPairs (resolveRename m.tbl rn)) (l : Nat)
+    (hl : p.2 = (l : Int)) (hlq : l ∉ q)
+    (hdep : dependsOn m.tbl trans l ∨ dependsOn m.tbl source l) :
+    image trans source rn qvars fa m = (.error .assertion, m) :=
+  image_of_body_err m hV trans source rn qvars fa q hq .assertion { m with ctx := true } (by simp)
+    (imageBody_refuses_target { m with ctx := true } (hI.setCtx true) hV trans source hu hv rn
+      qvars fa q hq hov hnl hlv p hp l hl hlq hdep)
+
+/-- module-level `preimage(trans, target, rename, qvars, bdd, forall)`, reordering not enabled:
+when the pairs of the renaming are declared levels, adjacent (`|k - rename k| = 1`), no two keys
+share a target, and THE TARGET IS INDEPENDENT OF EVERY VALUE OF THE RENAMING, the result is
+`Q qvars. trans ∧ rename(target)`. -/
+theorem preimage_spec_partial (m : Mgr) (hI : Inv m) (hoff : m.lastLen = none)
+    (hV : VarsBij m.tbl) (trans target : Int) (hu : m.tbl.Mem trans) (hv : m.tbl.Mem target)
+    (rn : List (Key × Key)) (qvars : List Key) (fa : Bool) (q : List Nat)
+    (hq : mapToLevelE m.tbl qvars = .ok q)
+    (hne : resolveRename m.tbl rn ≠ [] → 0 < m.nvars)
+    (hov : renameOverlap (resolveRename m.tbl rn) = false)
+    (hnb : badKeys (resolveRename m.tbl rn) = [])
+    (hlv : ∀ p, p ∈ intPairs (resolveRename m.tbl rn) →
+      0 ≤ p.1 ∧ p.1 < (m.nvars : Int) ∧ 0 ≤ p.2 ∧ p.2 < (m.nvars : Int))
+    (hadj : ∀ p, p ∈ intPairs (resolveRename m.tbl rn) → (p.1 - p.2).natAbs = 1)
+    (hinj : ∀ p p', p ∈ intPairs (resolveRename m.tbl rn) →
+      p' ∈ intPairs (resolveRename m.tbl rn) → p.2 = p'.2 → p.1 = p'.1)
+    (hind : ∀ p, p ∈ intPairs (resolveRename m.tbl rn) → ∀ l : Nat, p.2 = (l : Int) →
+      ¬ dependsOn m.tbl target l) :
+    ∃ r m', preimage trans target rn qvars fa m = (.ok r, m') ∧ Inv m' ∧ Ext m.tbl m'.tbl ∧
+      m'.tbl.Mem r ∧ Frame m m' ∧
+      ∀ a, den m'.tbl r a = true ↔
+        qsem fa q (fun b => den m.tbl trans b && den m.tbl target
+          (fun j => b (renOf (intPairs (resolveRename m.tbl rn)) j))) a := by
+  obtain ⟨r, m1, he, h1, h2, h3, h4, h5⟩ := preimageBody_spec_partial { m with ctx := true }
+    (hI.setCtx true) hoff hV trans target hu hv rn qvars fa q hq hne hov hnb hlv hadj hinj hind
+  exact ⟨r, { m1 with ctx := m.ctx },
+    preimage_of_body_ok m hV trans target rn qvars fa q hq r m1 he,
+    h1.setCtx _, h2, h3, ⟨h4.vars, h4.l2v, h4.lastLen, rfl, h4.sched, h4.roots⟩, h5⟩
 
 /-- `image` with the renaming and the quantified variables given BY NAME (declared names,
 pairwise distinct keys, no key is a value) -/
